@@ -105,7 +105,7 @@ func atGenWhereTree(r *vc.Rand, t *atTable, depth int, params, strCols bool) (st
 
 func c18GenCase(r *vc.Rand, idx int, prefix string, onlyCare bool) *atCase {
 	c := &atCase{Name: fmt.Sprintf("%s%04d", prefix, idx), Feat: map[string]string{}}
-	pk := []string{"int", "autoinc", "composite", "varchar", "composite3", "int"}[r.Intn(6)]
+	pk := []string{"int", "autoinc", "composite", "varchar", "composite3", "int", "composite_txt"}[r.Intn(7)]
 	kinds := atSafeKinds
 	if idx%5 == 4 {
 		kinds = atAllKinds
